@@ -61,4 +61,20 @@ META["C12"] = {
     "technique": "TLA+ total verifier specification + TLC trace validation of guarded real-verifier runs on structured mutations",
 }
 
+_STORE_NOTE = ("Trusted: TLC/SANY/CommunityModules; the driver's reply logging; RocksDB 7.8.3 (Debian) through the build shim instead of the "
+               "vendored 6.x; integers in traces stay below 2^31 (TLC), so index magnitudes near 2^64 are not explored.")
+META["C14"] = {
+    "text": "Store.tla specifies one sorted map per table; its lemmas (paged scan returns every entry once in order for every page size, "
+            "last = max of that table only, inclusive ranges, isolation) are model-checked exhaustively. Both real back-ends are driven "
+            "with seeded operation sequences and every reply is validated against the model by TLC (this is how the cross-table leaks of "
+            "the B+ store and the bounded GetLast of the RocksDB store were found).",
+    "note": _STORE_NOTE, "technique": "TLA+ sorted-map model (TLC) + trace validation of both real store back-ends",
+}
+META["C15"] = {
+    "text": "LogStore.tla specifies index->entry and key->value maps with inclusive range deletion; lemmas model-checked exhaustively. The real "
+            "RocksDB-backed raft log store (through a build-tag hook exporting its constructor) is driven with seeded operation sequences "
+            "incl. overwrites, sparse indexes, empty/whole ranges, reused decode targets and reopen; every reply validated against the model by TLC.",
+    "note": _STORE_NOTE, "technique": "TLA+ log-store model (TLC) + trace validation of the real raft log store",
+}
+
 NOT_APPLICABLE = {}
